@@ -452,8 +452,11 @@ class PC(StructureEstimator):
                             break
 
             # 4) for each X-Z-Y with X->W, Y->W, and Z-W, orient edges to Z->W
+            #    (X and Y must not be adjacent)
             for pair in node_pairs:
                 X, Y = pair
+                if pdag.has_edge(X, Y) or pdag.has_edge(Y, X):
+                    continue
                 for Z in (
                     set(pdag.successors(X))
                     & set(pdag.predecessors(X))
